@@ -265,7 +265,7 @@ def main():
         sets = {s: eval_consts(read("params/%s.rs" % s), base) for s in ("lvl2", "lvl3", "lvl5")}
         write_if_changed("GenK.v", gen_kernels.generate_kernels(base, sets))
     except TranslateError as e:
-        print("TRANSLATE-ERROR: %s" % e)
+        print("TRANSLATE-ERROR(kernels): %s" % e)
         rc = 3
     return rc
 
